@@ -1161,8 +1161,9 @@ fn setup(name: &str, pl: &[Vec<u8>], want_encs: bool, cur: Option<&Enc>, tmp: &P
             if want_encs {
                 // one tree per context: the serialisation of longer texts runs to tens of kilobytes
                 let mut small: Vec<Vec<u8>> = vec![b"abcabcab".to_vec(), b"aabba".to_vec()];
-                if pl.len() > 3 {
-                    small.push(pl[1].clone());
+                if pl.len() > 4 {
+                    // thorough tier (6 payloads): one realistic text as well
+                    small.push(b"abracadabra abracadabra".to_vec());
                 }
                 for (pi, p) in small.iter().enumerate() {
                     if let Ok(e) = ContextualHuffmanEncoder::new(p, order) {
